@@ -11,8 +11,17 @@
    by exponent): weighting(J) and A(J) must EQUAL the exact rational solution (rationalised equality);
    F1 (all instances, default eps and (1e-2, 1e-6)): |A(J) - J^T v0| <= sqrt(reg_eps tr G) |v0| (derived in
    DualCone.tla) ; s < norm_eps: weights = u, output = J^T u.
+   PRESENTATIONS AND HISTORIES (DualCone.tla section of that name, exported as `pres` / `buf`): the preference
+   vector is given as a float64 / float32 / int64 tensor (every dtype that holds it exactly, rotating) next to the
+   float64 matrix, and F2 calls around the threshold are repeated on the float32 matrix (float32 / float64 / int64
+   preference; same exact expectation within the float32 allowance derived in dualcone_replay.eval_c03); the
+   scenarios of one shape are replayed as sessions in which the next instance is, per the scenario's buffer mode,
+   written in place into the SAME tensor object and / or given to the SAME aggregator object as the previous ones,
+   or handed over in new objects - the expected values are per instance and never change.
 3. C -> S: random F2 episodes validated by TraceDualCone (the logged weights must be the
-   specification's), Gaussian / irrational ones at predicate level (KKT system in float64).
+   specification's; sessions of calls on re-used tensor / aggregator objects with the preference vector in any
+   admissible dtype, the claimed history re-derived by the trace specification), Gaussian / irrational ones at
+   predicate level (KKT system in float64; float32 matrices, foreign preference dtypes and re-used buffers too).
 """
 
 from __future__ import annotations
@@ -23,14 +32,15 @@ import random
 import torch
 
 from ..core import Ctx, MachineryError
-from ..dualcone_replay import case_key, eval_c03, work_c03
-from ..dualcone_trace import replay_raised, rerun_episode, report_raised, exact_episodes, kkt_predicate, predicate_episodes, validate_exact
+from ..dualcone_replay import case_key, eval_c03, replay_history, sessions_of, work_c03
+from ..dualcone_trace import replay_raised, rerun_episodes, report_raised, exact_episodes, kkt_predicate, predicate_episodes, \
+    replay_predicate, validate_exact
 from ..par import pmap
 from ..tlc import run_tlc
 
 PID = "C03"
 MODEL_INVARIANTS = ("KKTExistsUnique", "NoConflictIsIdentity", "InConeIsIdentity", "Feasible", "Minimal",
-                    "UPGradHomogeneous", "F2Sound", "LimitWellDefined", "BracketSound")
+                    "UPGradHomogeneous", "F2Sound", "LimitWellDefined", "BracketSound", "PresentationsSound")
 
 
 def model_check(ctx: Ctx, pid: str) -> list[dict]:
@@ -63,33 +73,23 @@ def _replay_payload(ctx: Ctx, p: dict) -> None:
     if p["kind"] == "case":
         for key, what in eval_c03(p["case"]):
             ctx.violation(key, what, p)
+    elif p["kind"] == "session":
+        for key, what in replay_history(p["history"], p["case"]):
+            ctx.violation(key + ":after_history", f"{what} -- after the {len(p['history'])} earlier call(s) of the recorded history", p)
     elif p["kind"] == "trace":
-        validate_exact(ctx, [rerun_episode(p["episode"])], PID)
+        validate_exact(ctx, rerun_episodes(p["episodes"]), PID)
     elif p["kind"] == "raised":
         replay_raised(ctx, p)
     elif p["kind"] == "pred":
-        J = torch.tensor(p["J"], dtype=torch.float64)
-        from ..dualcone_replay import make
-        u = p["u"]
-        w = make(p["agg"], torch.tensor(u, dtype=torch.float64), p["norm_eps"], p["reg_eps"]).weighting(J)
-        if p["agg"] == "dualproj":
-            clause = kkt_predicate(J, u, p["norm_eps"], p["reg_eps"], w.tolist())
-            if clause:
-                ctx.violation("pred:replay", f"DualProj weights break the KKT system ({clause})", p)
-        else:
-            rows = torch.zeros(len(u), dtype=torch.float64)
-            for i in range(len(u)):
-                ui = [u[j] if j == i else 0.0 for j in range(len(u))]
-                rows += make("dualproj", torch.tensor(ui, dtype=torch.float64), p["norm_eps"], p["reg_eps"]).weighting(J)
-            if float((w - rows).abs().max()) > 1e-9 * (1 + float(rows.abs().sum())):
-                ctx.violation("pred:replay", "UPGrad weights are not the sum of the row projections", p)
+        replay_predicate(ctx, p)
 
 
 def run(ctx: Ctx, replay: str | None) -> None:
     torch.manual_seed(ctx.seed)
     rng = random.Random(ctx.seed)
     ctx.rule = ("one case = (aggregator in {UPGrad, DualProj}, integer matrix J0 of the TLC family, preference vector, "
-                "(norm_eps, reg_eps), scale 2^e); every matrix of the family is enumerated by TLC and replayed; "
+                "(norm_eps, reg_eps), scale 2^e, presentation: preference dtype, matrix dtype, new / re-used tensor and "
+                "aggregator objects); every matrix of the family is enumerated by TLC and replayed; "
                 "non-trivial = J0 has two rows with a negative inner product (an active projection) and s >= norm_eps")
     ctx.assumptions += [
         "2^e * integer matrices and dyadic eps are exact in float64; rationals of denominator <= 1e4 are identified "
@@ -97,7 +97,10 @@ def run(ctx: Ctx, replay: str | None) -> None:
         "lambda_max integer decided exactly (det(L I - G) = 0 and L I - G PSD); s vs norm_eps decided by exponent "
         "(F2) or by the Sylvester bracket L <= s^2 < L+1 (F1); exact ties s = norm_eps excluded and counted",
         "F1 allowance sqrt(reg_eps tr G)|v0| + 1e-9 sqrt(tr G)(|v0|+|u|) derived in DualCone.tla (Tikhonov bound)",
-        "float32 is only covered at predicate level by C04",
+        "float32 matrices: F2 calls around the threshold, compared with the exact rational expectation within "
+        "(64 eps32 / reg_eps + 2 eps32) |w*|_1 (perturbation bound of the QP minimiser derived in dualcone_replay.eval_c03; "
+        "64 eps32 is the ASSUMED backward error of the float32 SVD + U diag U^T), elsewhere at predicate level",
+        "a preference vector is presented only in dtypes that hold it exactly (decided by the specification: Presentable)",
     ]
     if replay:
         _replay_payload(ctx, json.load(open(replay))["payload"])
@@ -112,23 +115,29 @@ def run(ctx: Ctx, replay: str | None) -> None:
     else:
         pick = scns
         ctx.exhaustive = True
-    results = pmap(work_c03, [(s, ctx.tier) for s in pick], chunksize=8)
-    for s, r in zip(pick, results):
+    sessions = sessions_of(pick)
+    results = pmap(work_c03, [(ss, ctx.tier, ctx.seed) for ss in sessions], chunksize=1)
+    for ss, r in zip(sessions, results):
         ctx.evaluations += r["n"]
-        ctx.traces += 1
+        ctx.traces += len(ss)
         for k, v in r["cnt"].items():
             ctx.count(k, v)
         for k, v in r["kinds"].items():
             ctx.count("cases_" + k, v)
-        if s["conflict"]:
-            ctx.nontrivial(json.dumps(s["J"]))
-        for key, what, case in r["fails"]:
-            ctx.violation(key, what, {"kind": "case", "case": case})
+        for s in ss:
+            if s["conflict"]:
+                ctx.nontrivial(json.dumps(s["J"]))
+        for key, what, payload in r["fails"]:
+            ctx.violation(key, what, payload)
+    ctx.count("sessions", len(sessions))
     for s in (pick[len(pick) // 3], pick[-1]):
         ctx.sample({"scenario": {k: s[k] for k in ("J", "lamLo", "lamInt", "conflict", "prefs")} |
                                 {"f2_first": s["f2"][0][1] if s["f2"] else None, "f1_first": s["f1"][1]}})
-    if not ctx.counters.get("cases_f2") or not ctx.counters.get("cases_f1") or not ctx.counters.get("cases_below"):
-        raise MachineryError(f"vacuous replay: {ctx.counters}")
+    need = ["cases_f2", "cases_f1", "cases_below"] + \
+           [f"cases_matrix_{md}_pref_{pd}" for md in ("f64", "f32") for pd in ("none", "f64", "f32", "i64")] + \
+           [f"cases_tensor_{t}_agg_{a}" for t in ("fresh", "reused") for a in ("fresh", "reused")]
+    if any(not ctx.counters.get(k) for k in need):
+        raise MachineryError(f"vacuous replay ({[k for k in need if not ctx.counters.get(k)]} missing): {ctx.counters}")
 
     # C -> S
     stats: dict = {}
@@ -140,7 +149,7 @@ def run(ctx: Ctx, replay: str | None) -> None:
     ctx.extra["trace_summary"] = summ
     ctx.extra["trace_generation"] = stats
     for e in eps[:2]:
-        ctx.sample({"episode": {k: e[k] for k in ("J", "e", "a", "reg", "u", "agg", "w")}})
+        ctx.sample({"episode": {k: e[k] for k in ("J", "e", "a", "reg", "u", "pdt", "tmode", "amode", "agg", "w")}})
     n_pred = predicate_episodes(ctx, rng, 150 if ctx.tier == "quick" else 1000, PID)
     ctx.count("predicate_level_episodes", n_pred)
     ctx.note("predicate level only (DESIGN 8): Gaussian / irrational-lambda episodes (KKT system evaluated in float64); "
